@@ -16,7 +16,8 @@ def srcBlkViews : List (String × (Bool → Frag → Rd.R) × Codec × (Val → 
   ("ShardDescr", SrcBlk.ShardDescr, shardDescr, Blk.view_ShardDescr),
   ("AccountStorage", SrcBlk.AccountStorage, accountStorage, Blk.view_AccountStorage),
   ("Account", SrcBlk.Account, account, Blk.view_Account),
-  ("ShardAccount", SrcBlk.ShardAccount, shardAccount, Blk.view_ShardAccount)]
+  ("ShardAccount", SrcBlk.ShardAccount, shardAccount, Blk.view_ShardAccount),
+  ("ValidatorSet", SrcBlk.ValidatorSet, validatorSet, Blk.view_ValidatorSet)]
 
 /-- `tlbsrcblk <Class> <dag> <node>` → `ok <value json> <remaining bits> <remaining refs>` | `none` :
     the regenerated reader of the class run on that cell -/
